@@ -43,7 +43,7 @@ CLAIM = {
     "note": "PARTIAL - completeness of the list of entropy channels and everything about process state is established only by "
             "the sampled environment differential and the static census, not by proof; InteractiveContext.run/run_until/"
             "run_for are proved equal to run() only for a constant global step (false with per-simulant clocks: new finding "
-            "F-W, kept out of the generator); trusted: probe components, canonicaliser, sub-process orchestration, dill, "
+            "F-AB, kept out of the generator); trusted: probe components, canonicaliser, sub-process orchestration, dill, "
             "pandas/numpy",
 }
 RULE = ("env: generated programs (2-8 minimum steps quick / 2-12 thorough, population 0-16 + births, both clocks, fractional "
@@ -83,7 +83,7 @@ def gen_envs(rng, program, n_groups, per_group):
     const = probes.exact_constant_step(program)
     drivers = [d for d in DRIVERS if const or d not in ("i_run", "i_run_for")]
     # InteractiveContext.run/run_until/run_for count their iterations from the CURRENT global step: equal to run() only
-    # when the step is constant (theorem C01_run_until_eq_run_const_step_partial; finding F-W otherwise)
+    # when the step is constant (theorem C01_run_until_eq_run_const_step_partial; finding F-AB otherwise)
     groups = [{"hashseed": 0, "envs": [{"driver": "run_simulation", "pollute": "none", "prior": 0}]}]
     todo = [d for d in drivers if d != "run_simulation"]
     rng.shuffle(todo)
@@ -404,12 +404,12 @@ def tables(run):
     try:
         run.notes.append(fs_probe())
     except Exception as e:       # the probe is informational only
-        run.notes.append(f"F-W probe could not run: {type(e).__name__}: {e}")
+        run.notes.append(f"F-AB probe could not run: {type(e).__name__}: {e}")
     return []
 
 
 # ----------------------------------------------------------------------------------------------------------------
-# finding F-W (new, reported; NOT part of the generated differential): InteractiveContext.run() vs run() with a
+# finding F-AB (new, reported; NOT part of the generated differential): InteractiveContext.run() vs run() with a
 # varying global step
 # ----------------------------------------------------------------------------------------------------------------
 FS_PROGRAM = {"seed": 1, "pop": 1, "clock": "datetime", "step": 1, "std": None, "n_min_steps": 3, "end_frac": 0, "crn": False,
@@ -424,9 +424,9 @@ def fs_probe():
     except BaseException as e:   # noqa: B902
         nb = f"{type(e).__name__}"
     boot.reset_contexts()
-    return (f"finding F-W (InteractiveContext.run counts iterations from the current global step): run() takes "
+    return (f"finding F-AB (InteractiveContext.run counts iterations from the current global step): run() takes "
             f"{len(a['digests'])} steps, InteractiveContext.run() takes {nb} on the 1-simulant program with 1/2/3-day "
-            f"steps (standalone replay: corpus/C01/FW_demo.py) - " + ("REPRODUCES" if nb != len(a["digests"]) else "does not reproduce"))
+            f"steps (standalone replay: corpus/C01/FAB_demo.py) - " + ("REPRODUCES" if nb != len(a["digests"]) else "does not reproduce"))
 
 
 def generate_census():
